@@ -21,13 +21,13 @@ META = {
  ),
  "C13": dict(
   design_ref="DESIGN.md §5 C13",
-  technique="rapid differential vs canonical-signature builder + stand-alone Keccak-256; decoy-log gate oracle through Integration.Insert; several integrations built before use (held hashes, second build from one declaration); round trip of stored integrations through the fake Postgres",
+  technique="rapid differential vs canonical-signature builder + stand-alone Keccak-256; decoy-log gate oracle through Integration.Insert; several integrations built before use (held hashes, second build from one declaration); round trip of stored integrations through the fake Postgres; rapid pipeline unit (configuration JSON -> validation -> request plan -> task) with table == reference projection",
   text="Generated search: the signature string and hash of every generated declaration are compared with an independent construction, Keccak is cross-checked against a from-scratch implementation and mainnet vectors, and blocks of matching/decoy logs must yield rows exactly for the logs passing the hash+topic-count gate.",
   note="Trusted: refmodel.Keccak256 (validated against five mainnet topics and the empty-string digest), refmodel canonical signature.",
  ),
  "C01": dict(
   design_ref="DESIGN.md §4, §5 C01",
-  technique="rapid model-based state machine: real Task.Converge against simulated JSON-RPC node + fake Postgres (wire protocol), oracle = independent projection model and per-step commit-record invariants",
+  technique="rapid model-based state machine: real Task.Converge (tasks built by shovel's own loader from file or stored integrations) against simulated JSON-RPC node + fake Postgres (wire protocol), oracle = independent projection model and per-step commit-record invariants",
   text="Generated search over configurations x chain contents x interleavings of growth and indexing steps (thousands of histories quick, ~10^5 thorough), with the complete table compared against an independent projection after every successful step and at quiescence. Exploration only: bounded chain lengths (tens of blocks) and sizes; no absence claim.",
   note="Trusted: harness/fakepg (Postgres semantics of ~20 statement shapes), harness/sim (JSON-RPC node), harness/model + refmodel (projection). pgx and net/http are in the loop but only as transport.",
  ),
@@ -39,7 +39,7 @@ META = {
  ),
  "C06": dict(
   design_ref="DESIGN.md §4, §5 C06",
-  technique="rapid model-based state machine over (start, stop, head, batch) with restarts; range/ completion invariants on commit records + projection equality",
+  technique="rapid model-based state machine over (start, stop, head, batch) with restarts, blocks arriving between two requests of a step and failing COMMITs; range/ completion invariants on commit records + projection equality",
   text="Generated search over start/stop placements relative to a growing head, batch sizes straddling the stop, and restarts; every commit is checked against the configured range, completion is checked against the cursor model, and the table against the projection of the range.",
   note="Trusted: fakepg, sim node, projection model. 'Head at first contact' is read from the simulated node's request log.",
  ),
@@ -81,7 +81,7 @@ META = {
  ),
  "C16": dict(
   design_ref="DESIGN.md §5 C16",
-  technique="rapid generated integration sets -> ValidateFix/Migrate on the fake Postgres -> real COPY of generated blocks twice (first must succeed, second must collide); validation negatives by single-reference removal",
+  technique="rapid generated integration sets -> ValidateFix/Migrate on the fake Postgres -> real COPY of generated blocks twice (first must succeed, second must collide); no-NULL-in-generated-key invariant incl. a log with the event's topics and no data; validation negatives by single-reference removal",
   text="Generated search over integration sets and chains: DDL and migrations are executed by a Postgres stand-in that enforces column existence and unique indexes, real emitted rows are copied in, and a replay of the same blocks must hit the generated unique key.",
   note="Trusted: fakepg DDL semantics (create table/index if not exists, add column if not exists, information_schema diff, unique enforcement with NULLs distinct).",
  ),
@@ -111,7 +111,7 @@ META = {
  ),
  "C20": dict(
   design_ref="DESIGN.md §5 C20",
-  technique="rapid generated file/database configuration mixes and restart timings against the real Manager in process; task-set model + overlap analysis of the fake Postgres event log + per-source node traffic",
+  technique="rapid generated file/database configuration mixes and restart timings against the real Manager in process; task-set model + overlap analysis of the fake Postgres event log + per-source node traffic (incl. a stored source edited between two generations)",
   text="Generated search over configuration mixes and restart timings (gate-controlled steps, concurrent restarts); the loaded task set is compared with an independent model through an observation hook, and runner exclusivity is decided from the transaction events seen by the fake Postgres.",
   note="Hook: shovel/verif_hooks.go (build tag verif) exposes the loaded task list. Liveness clauses are checked with bounded waits.",
  ),
